@@ -22,6 +22,15 @@ class Unsupported(AnalysisError):
     pass
 
 
+class NestedRounding(Unsupported):
+    """outer(inner(x) * s): two roundings in a row that do not collapse into one."""
+
+    def __init__(self, rule, inner, outer, term):
+        super().__init__(rule, f'{outer}() applied to an already {inner}-ed, rescaled value: '
+                               f'{T.show(term, maxlen=120)}')
+        self.inner, self.outer = inner, outer
+
+
 # ---------------------------------------------------------------------- pieces
 def piece(lo, lc, hi, hc):
     return (lo, lc, hi, hc)
@@ -248,6 +257,11 @@ class Kernel:
                 return [(pp, self._step('ceil', v, t)) for pp, v in self.ev(a[0], p)]
             if q in ('numpy.round', 'numpy.rint', 'numpy.around', 'builtins.round') and len(a) == 1:
                 return [(pp, self._step('round', v, t)) for pp, v in self.ev(a[0], p)]
+            if q in ('numpy.round', 'numpy.around', 'builtins.round') and len(a) == 2 and T.is_const(a[1]) \
+                    and isinstance(a[1][1], int):
+                k = F(10) ** a[1][1]
+                return [(pp, self._scale(self._step('round', self._scale(v, k, t), t), 1 / k, t))
+                        for pp, v in self.ev(a[0], p)]
             if q in ('builtins.int', 'numpy.trunc', 'math.trunc', 'numpy.fix'):
                 return self._trunc(a[0], p, t)
             if q == 'numpy.where' and len(a) == 3:
@@ -329,7 +343,10 @@ class Kernel:
         if is_integer_valued(v):
             return v          # floor/ceil/round of an integer-valued expression
         if v[1] != 'id':
-            self.bad(t, '(nested rounding of a non-integer value)')
+            # floor(floor(x) / n) == floor(x / n), ceil(ceil(x) / n) == ceil(x / n) for a positive integer n
+            if v[1] == kind and kind in ('floor', 'ceil') and v[5] == 0 and v[4] > 0 and (1 / v[4]).denominator == 1:
+                return num(kind, v[2] * v[4], v[3] * v[4])
+            raise NestedRounding(self.rule, v[1], kind, t)
         return num(kind, v[2], v[3])
 
     def _scale(self, v, k, t):
